@@ -2,6 +2,7 @@
 CHP, CHP with minimum-load costs, ScaledAsset, StructuredAsset, LinkedAsset, coarse frequencies, periodicity).
 Used by the generic layers: nodal balance (C01), value accounting (C04), mapping faithfulness (C07), purity (C10),
 JSON round trip (C11), fixing a window (C15).  Every builder returns fresh objects: (name, portfolio, prices, timegrid)."""
+import contextlib
 import datetime as dt
 import random
 
@@ -11,6 +12,28 @@ from .realise import eao
 
 A = eao.assets
 START = dt.datetime(2021, 1, 4)
+
+# renaming of assets / nodes (C09): every builder passes its literal names through NM / NN
+_RENAME = dict(asset=None, node=None)
+
+
+def NM(name):
+    return _RENAME['asset'](name) if _RENAME['asset'] else name
+
+
+def NN(name):
+    return _RENAME['node'](name) if _RENAME['node'] else name
+
+
+@contextlib.contextmanager
+def renamed(asset=None, node=None):
+    """build zoo portfolios with other asset / node names: `asset`, `node` are functions original name -> new name"""
+    old = dict(_RENAME)
+    _RENAME.update(asset=asset, node=node)
+    try:
+        yield
+    finally:
+        _RENAME.update(old)
 
 
 def grid(T=6, freq='h', tz=None, mtu='h', start=START):
@@ -24,112 +47,112 @@ def prices_for(T, seed, names=('p1', 'p2', 'p3')):
 
 
 def z_contracts(seed, T=6, names=('c1', 'c2', 'c3')):
-    n1 = A.Node('n1')
+    n1 = A.Node(NN('n1'))
     tg = grid(T)
     pr = prices_for(T, seed)
-    a = [A.SimpleContract(names[0], n1, price='p1', min_cap=-2, max_cap=2, extra_costs=0.5),
-         A.Contract(names[1], n1, price='p2', min_cap=0, max_cap=3, max_take={'start': [START], 'end': [START + dt.timedelta(hours=T)], 'values': [5.]}),
-         A.SimpleContract(names[2], n1, price='p3', min_cap=-4, max_cap=4)]
+    a = [A.SimpleContract(NM(names[0]), n1, price='p1', min_cap=-2, max_cap=2, extra_costs=0.5),
+         A.Contract(NM(names[1]), n1, price='p2', min_cap=0, max_cap=3, max_take={'start': [START], 'end': [START + dt.timedelta(hours=T)], 'values': [5.]}),
+         A.SimpleContract(NM(names[2]), n1, price='p3', min_cap=-4, max_cap=4)]
     return 'contracts', eao.portfolio.Portfolio(a), pr, tg
 
 
 def z_transport_storage(seed, T=6):
-    n1, n2 = A.Node('n1'), A.Node('n2')
+    n1, n2 = A.Node(NN('n1')), A.Node(NN('n2'))
     tg = grid(T)
     pr = prices_for(T, seed)
-    a = [A.SimpleContract('buy', n1, price='p1', min_cap=-3, max_cap=3),
-         A.Transport('tr', [n1, n2], min_cap=0, max_cap=2, efficiency=0.5, costs_const=0.25),
-         A.Storage('sto', [n1, n2], size=3, cap_in=1, cap_out=2, start_level=1, end_level=1, eff_in=0.5, cost_in=0.1, inflow=0.25),
-         A.SimpleContract('sell', n2, price='p2', min_cap=-2, max_cap=2, extra_costs=0.1)]
+    a = [A.SimpleContract(NM('buy'), n1, price='p1', min_cap=-3, max_cap=3),
+         A.Transport(NM('tr'), [n1, n2], min_cap=0, max_cap=2, efficiency=0.5, costs_const=0.25),
+         A.Storage(NM('sto'), [n1, n2], size=3, cap_in=1, cap_out=2, start_level=1, end_level=1, eff_in=0.5, cost_in=0.1, inflow=0.25),
+         A.SimpleContract(NM('sell'), n2, price='p2', min_cap=-2, max_cap=2, extra_costs=0.1)]
     return 'transport_storage', eao.portfolio.Portfolio(a), pr, tg
 
 
 def z_multi(seed, T=6):
-    n1, n2 = A.Node('n1'), A.Node('n2')
+    n1, n2 = A.Node(NN('n1')), A.Node(NN('n2'))
     tg = grid(T)
     pr = prices_for(T, seed)
-    a = [A.MultiCommodityContract('mc', [n1, n2], price='p1', min_cap=0, max_cap=2, factors_commodities=[1, 0.5], extra_costs=0.2),
-         A.SimpleContract('s1', n1, price='p2', min_cap=-3, max_cap=3),
-         A.SimpleContract('s2', n2, price='p3', min_cap=-3, max_cap=3)]
+    a = [A.MultiCommodityContract(NM('mc'), [n1, n2], price='p1', min_cap=0, max_cap=2, factors_commodities=[1, 0.5], extra_costs=0.2),
+         A.SimpleContract(NM('s1'), n1, price='p2', min_cap=-3, max_cap=3),
+         A.SimpleContract(NM('s2'), n2, price='p3', min_cap=-3, max_cap=3)]
     return 'multi', eao.portfolio.Portfolio(a), pr, tg
 
 
 def z_plant_fuel(seed, T=6):
-    power, gas = A.Node('power'), A.Node('gas')
+    power, gas = A.Node(NN('power')), A.Node(NN('gas'))
     tg = grid(T)
     pr = prices_for(T, seed)
-    a = [A.Plant('plant', [power, gas], min_cap=1, max_cap=3, extra_costs=0.5, ramp=2, start_costs=1., running_costs=0.2, min_runtime=2,
+    a = [A.Plant(NM('plant'), [power, gas], min_cap=1, max_cap=3, extra_costs=0.5, ramp=2, start_costs=1., running_costs=0.2, min_runtime=2,
                  min_downtime=2, time_already_off=1, start_fuel=1., fuel_efficiency=0.5, consumption_if_on=0.5),
-         A.SimpleContract('market', power, price='p1', min_cap=-5, max_cap=5),
-         A.SimpleContract('gas_supply', gas, price='p2', min_cap=-20, max_cap=20)]
+         A.SimpleContract(NM('market'), power, price='p1', min_cap=-5, max_cap=5),
+         A.SimpleContract(NM('gas_supply'), gas, price='p2', min_cap=-20, max_cap=20)]
     return 'plant_fuel', eao.portfolio.Portfolio(a), pr, tg
 
 
 def z_chp(seed, T=6):
-    power, heat, gas = A.Node('power'), A.Node('heat'), A.Node('gas')
+    power, heat, gas = A.Node(NN('power')), A.Node(NN('heat')), A.Node(NN('gas'))
     tg = grid(T)
     pr = prices_for(T, seed)
     pr['demand'] = np.array([1., 2., 1., 0., 2., 1.][:T])
-    a = [A.CHPAsset('chp', [power, heat, gas], min_cap=1, max_cap=4, extra_costs=0.3, conversion_factor_power_heat=0.5, max_share_heat=1.,
+    a = [A.CHPAsset(NM('chp'), [power, heat, gas], min_cap=1, max_cap=4, extra_costs=0.3, conversion_factor_power_heat=0.5, max_share_heat=1.,
                     start_costs=2., min_runtime=2, time_already_running=1, last_dispatch=2, ramp=3, start_fuel=0.5, fuel_efficiency=0.8,
                     consumption_if_on=0.1),
-         A.SimpleContract('market', power, price='p1', min_cap=-6, max_cap=6),
-         A.Contract('heat_demand', heat, min_cap='demand', max_cap='demand', price=None) if False else
-         A.SimpleContract('heat_sink', heat, price='p3', min_cap=-4, max_cap=0),
-         A.SimpleContract('gas_supply', gas, price='p2', min_cap=-30, max_cap=30)]
+         A.SimpleContract(NM('market'), power, price='p1', min_cap=-6, max_cap=6),
+         A.Contract(NM('heat_demand'), heat, min_cap='demand', max_cap='demand', price=None) if False else
+         A.SimpleContract(NM('heat_sink'), heat, price='p3', min_cap=-4, max_cap=0),
+         A.SimpleContract(NM('gas_supply'), gas, price='p2', min_cap=-30, max_cap=30)]
     return 'chp', eao.portfolio.Portfolio(a), pr, tg
 
 
 def z_chp_minload(seed, T=5):
-    power, heat = A.Node('power'), A.Node('heat')
+    power, heat = A.Node(NN('power')), A.Node(NN('heat'))
     tg = grid(T)
     pr = prices_for(T, seed)
-    a = [A.CHPAsset_with_min_load_costs(name='chpml', nodes=[power, heat], min_cap=1, max_cap=4, extra_costs=0.3, start_costs=1.,
+    a = [A.CHPAsset_with_min_load_costs(name=NM('chpml'), nodes=[power, heat], min_cap=1, max_cap=4, extra_costs=0.3, start_costs=1.,
                                         min_load_threshhold=2., min_load_costs=1.5, max_share_heat=0.5),
-         A.SimpleContract('market', power, price='p1', min_cap=-6, max_cap=6),
-         A.SimpleContract('heat_sink', heat, price='p3', min_cap=-4, max_cap=0)]
+         A.SimpleContract(NM('market'), power, price='p1', min_cap=-6, max_cap=6),
+         A.SimpleContract(NM('heat_sink'), heat, price='p3', min_cap=-4, max_cap=0)]
     return 'chp_minload', eao.portfolio.Portfolio(a), pr, tg
 
 
 def z_scaled(seed, T=6):
-    n1 = A.Node('n1')
+    n1 = A.Node(NN('n1'))
     tg = grid(T)
     pr = prices_for(T, seed)
-    base = A.Storage('battery_base', n1, size=4, cap_in=2, cap_out=2, eff_in=0.5)
-    sc = A.ScaledAsset(name='battery', base_asset=base, min_scale=0., max_scale=2., norm_scale=2., fix_costs=0.05)
-    src = A.SimpleContract('pv', n1, price='p2', min_cap=0, max_cap=1)
-    scsrc = A.ScaledAsset(name='pv_scaled', base_asset=src, min_scale=0.5, max_scale=3., norm_scale=1., fix_costs=0.1)
-    a = [sc, scsrc, A.SimpleContract('market', n1, price='p1', min_cap=-6, max_cap=6)]
+    base = A.Storage(NM('battery_base'), n1, size=4, cap_in=2, cap_out=2, eff_in=0.5)
+    sc = A.ScaledAsset(name=NM('battery'), base_asset=base, min_scale=0., max_scale=2., norm_scale=2., fix_costs=0.05)
+    src = A.SimpleContract(NM('pv'), n1, price='p2', min_cap=0, max_cap=1)
+    scsrc = A.ScaledAsset(name=NM('pv_scaled'), base_asset=src, min_scale=0.5, max_scale=3., norm_scale=1., fix_costs=0.1)
+    a = [sc, scsrc, A.SimpleContract(NM('market'), n1, price='p1', min_cap=-6, max_cap=6)]
     return 'scaled', eao.portfolio.Portfolio(a), pr, tg
 
 
 def z_structured(seed, T=6):
-    n1, n2, ni = A.Node('n1'), A.Node('n2'), A.Node('inner')
+    n1, n2, ni = A.Node(NN('n1')), A.Node(NN('n2')), A.Node(NN('inner'))
     tg = grid(T)
     pr = prices_for(T, seed)
-    inner = eao.portfolio.Portfolio([A.Transport('in_tr', [n1, ni], min_cap=0, max_cap=2, efficiency=0.5),
-                                     A.Storage('in_sto', ni, size=2, cap_in=1, cap_out=1, cost_in=0.1),
-                                     A.Transport('out_tr', [ni, n2], min_cap=0, max_cap=2, costs_const=0.1)])
-    sa = eao.portfolio.StructuredAsset(name='hydro', nodes=[n1, n2], portfolio=inner)
-    a = [sa, A.SimpleContract('m1', n1, price='p1', min_cap=-3, max_cap=3), A.SimpleContract('m2', n2, price='p2', min_cap=-3, max_cap=3)]
+    inner = eao.portfolio.Portfolio([A.Transport(NM('in_tr'), [n1, ni], min_cap=0, max_cap=2, efficiency=0.5),
+                                     A.Storage(NM('in_sto'), ni, size=2, cap_in=1, cap_out=1, cost_in=0.1),
+                                     A.Transport(NM('out_tr'), [ni, n2], min_cap=0, max_cap=2, costs_const=0.1)])
+    sa = eao.portfolio.StructuredAsset(name=NM('hydro'), nodes=[n1, n2], portfolio=inner)
+    a = [sa, A.SimpleContract(NM('m1'), n1, price='p1', min_cap=-3, max_cap=3), A.SimpleContract(NM('m2'), n2, price='p2', min_cap=-3, max_cap=3)]
     return 'structured', eao.portfolio.Portfolio(a), pr, tg
 
 
 def z_linked(seed, T=6):
-    power, heat = A.Node('power'), A.Node('heat')
+    power, heat = A.Node(NN('power')), A.Node(NN('heat'))
     tg = grid(T)
     pr = prices_for(T, seed)
-    a1 = A.SimpleContract(name='boiler', nodes=heat, price='p2', min_cap=0, max_cap=2)
-    a2 = A.CHPAsset(name='chp', nodes=[power, heat], min_cap=1, max_cap=3, extra_costs=0.2, start_costs=1., min_runtime=2, max_share_heat=1.)
+    a1 = A.SimpleContract(name=NM('boiler'), nodes=heat, price='p2', min_cap=0, max_cap=2)
+    a2 = A.CHPAsset(name=NM('chp'), nodes=[power, heat], min_cap=1, max_cap=3, extra_costs=0.2, start_costs=1., min_runtime=2, max_share_heat=1.)
     inner = eao.portfolio.Portfolio([a1, a2])
-    la = eao.portfolio.LinkedAsset(inner, nodes=[power, heat], name='linked', asset1_variable=(a1, 'disp', heat),
+    la = eao.portfolio.LinkedAsset(inner, nodes=[power, heat], name=NM('linked'), asset1_variable=(a1, 'disp', heat),
                                    asset2_variable=(a2, 'bool_on', None), asset2_time_already_running=0, time_back=1, time_forward=0)
-    a = [la, A.SimpleContract('market', power, price='p1', min_cap=-6, max_cap=6), A.SimpleContract('heat_sink', heat, price='p3', min_cap=-5, max_cap=0)]
+    a = [la, A.SimpleContract(NM('market'), power, price='p1', min_cap=-6, max_cap=6), A.SimpleContract(NM('heat_sink'), heat, price='p3', min_cap=-5, max_cap=0)]
     return 'linked', eao.portfolio.Portfolio(a), pr, tg
 
 
 def z_orderbook(seed, T=6):
-    n1 = A.Node('n1')
+    n1 = A.Node(NN('n1'))
     tg = grid(T)
     pr = prices_for(T, seed)
     import pandas as pd
@@ -137,76 +160,76 @@ def z_orderbook(seed, T=6):
     orders = {'start': [pd.Timestamp(START), pd.Timestamp(START + 2 * H), pd.Timestamp(START - 5 * H), pd.Timestamp(START + 4 * H)],
               'end': [pd.Timestamp(START + 3 * H), pd.Timestamp(START + 5 * H), pd.Timestamp(START - 2 * H), pd.Timestamp(START + 9 * H)],
               'capa': [1., -2., 3., 1.5], 'price': [2., 6., 1., 3.]}
-    a = [A.OrderBook('ob', n1, orders=orders, full_exec=(seed % 2 == 1)),
-         A.Storage('sto', n1, size=3, cap_in=1, cap_out=1),
-         A.SimpleContract('market', n1, price='p1', min_cap=-2, max_cap=2, extra_costs=0.5)]
+    a = [A.OrderBook(NM('ob'), n1, orders=orders, full_exec=(seed % 2 == 1)),
+         A.Storage(NM('sto'), n1, size=3, cap_in=1, cap_out=1),
+         A.SimpleContract(NM('market'), n1, price='p1', min_cap=-2, max_cap=2, extra_costs=0.5)]
     return 'orderbook', eao.portfolio.Portfolio(a), pr, tg
 
 
 def z_coarse(seed, T=8):
-    n1, n2 = A.Node('n1'), A.Node('n2')
+    n1, n2 = A.Node(NN('n1')), A.Node(NN('n2'))
     tg = grid(T)
     pr = prices_for(T, seed)
-    a = [A.SimpleContract('base', n1, price='p1', min_cap=-2, max_cap=2, freq='2h'),
-         A.Transport('tr', [n1, n2], min_cap=0, max_cap=2, efficiency=0.5, freq='4h'),
-         A.Storage('sto', n1, size=4, cap_in=1, cap_out=1, freq='2h'),
-         A.SimpleContract('m1', n1, price='p2', min_cap=-5, max_cap=5),
-         A.SimpleContract('m2', n2, price='p3', min_cap=-5, max_cap=5)]
+    a = [A.SimpleContract(NM('base'), n1, price='p1', min_cap=-2, max_cap=2, freq='2h'),
+         A.Transport(NM('tr'), [n1, n2], min_cap=0, max_cap=2, efficiency=0.5, freq='4h'),
+         A.Storage(NM('sto'), n1, size=4, cap_in=1, cap_out=1, freq='2h'),
+         A.SimpleContract(NM('m1'), n1, price='p2', min_cap=-5, max_cap=5),
+         A.SimpleContract(NM('m2'), n2, price='p3', min_cap=-5, max_cap=5)]
     return 'coarse', eao.portfolio.Portfolio(a), pr, tg
 
 
 def z_periodic(seed, T=8):
-    n1, n2 = A.Node('n1'), A.Node('n2')
+    n1, n2 = A.Node(NN('n1')), A.Node(NN('n2'))
     tg = grid(T, freq='h')
     pr = prices_for(T, seed)
-    a = [A.SimpleContract('per', n1, price='p1', min_cap=-2, max_cap=2, periodicity='2h'),
-         A.Transport('trp', [n1, n2], min_cap=0, max_cap=2, efficiency=0.5, periodicity='4h'),
-         A.Storage('stop', n1, size=4, cap_in=1, cap_out=1, periodicity='4h'),
-         A.SimpleContract('m1', n1, price='p2', min_cap=-5, max_cap=5),
-         A.SimpleContract('m2', n2, price='p3', min_cap=-5, max_cap=5)]
+    a = [A.SimpleContract(NM('per'), n1, price='p1', min_cap=-2, max_cap=2, periodicity='2h'),
+         A.Transport(NM('trp'), [n1, n2], min_cap=0, max_cap=2, efficiency=0.5, periodicity='4h'),
+         A.Storage(NM('stop'), n1, size=4, cap_in=1, cap_out=1, periodicity='4h'),
+         A.SimpleContract(NM('m1'), n1, price='p2', min_cap=-5, max_cap=5),
+         A.SimpleContract(NM('m2'), n2, price='p3', min_cap=-5, max_cap=5)]
     return 'periodic', eao.portfolio.Portfolio(a), pr, tg
 
 
 def z_periodic_duration(seed, T=8):
-    n1 = A.Node('n1')
+    n1 = A.Node(NN('n1'))
     tg = grid(T, freq='h')
     pr = prices_for(T, seed)
-    a = [A.SimpleContract('perd', n1, price='p1', min_cap=-2, max_cap=2, periodicity='2h', periodicity_duration='4h'),
-         A.SimpleContract('m1', n1, price='p2', min_cap=-5, max_cap=5)]
+    a = [A.SimpleContract(NM('perd'), n1, price='p1', min_cap=-2, max_cap=2, periodicity='2h', periodicity_duration='4h'),
+         A.SimpleContract(NM('m1'), n1, price='p2', min_cap=-5, max_cap=5)]
     return 'periodic_duration', eao.portfolio.Portfolio(a), pr, tg
 
 
 def z_digit_names(seed, T=4):
-    n1 = A.Node('1')
-    n2 = A.Node('11')
+    n1 = A.Node(NN('1'))
+    n2 = A.Node(NN('11'))
     tg = grid(T)
     pr = prices_for(T, seed)
-    a = [A.SimpleContract('1', n1, price='p1', min_cap=-2, max_cap=2, extra_costs=0.5),
-         A.SimpleContract('11', n1, price='p2', min_cap=-3, max_cap=3),
-         A.Transport('1_1', [n1, n2], min_cap=0, max_cap=1),
-         A.SimpleContract('111', n2, price='p3', min_cap=-3, max_cap=3, extra_costs=0.25)]
+    a = [A.SimpleContract(NM('1'), n1, price='p1', min_cap=-2, max_cap=2, extra_costs=0.5),
+         A.SimpleContract(NM('11'), n1, price='p2', min_cap=-3, max_cap=3),
+         A.Transport(NM('1_1'), [n1, n2], min_cap=0, max_cap=1),
+         A.SimpleContract(NM('111'), n2, price='p3', min_cap=-3, max_cap=3, extra_costs=0.25)]
     return 'digit_names', eao.portfolio.Portfolio(a), pr, tg
 
 
 def z_storage_mip(seed, T=5):
-    n1 = A.Node('n1')
+    n1 = A.Node(NN('n1'))
     tg = grid(T)
     pr = prices_for(T, seed)
-    a = [A.Storage('smip', n1, size=3, cap_in=2, cap_out=2, eff_in=0.5, no_simult_in_out=True, max_store_duration=2),
-         A.SimpleContract('m', n1, price='p1', min_cap=-3, max_cap=3)]
+    a = [A.Storage(NM('smip'), n1, size=3, cap_in=2, cap_out=2, eff_in=0.5, no_simult_in_out=True, max_store_duration=2),
+         A.SimpleContract(NM('m'), n1, price='p1', min_cap=-3, max_cap=3)]
     return 'storage_mip', eao.portfolio.Portfolio(a), pr, tg
 
 
 def z_windows(seed, T=6):
-    n1, n2 = A.Node('n1'), A.Node('n2')
+    n1, n2 = A.Node(NN('n1')), A.Node(NN('n2'))
     tg = grid(T)
     pr = prices_for(T, seed)
     H = dt.timedelta(hours=1)
-    a = [A.SimpleContract('early', n1, price='p1', min_cap=-2, max_cap=2, start=START - 3 * H, end=START + 2 * H),
-         A.Storage('late', n1, size=2, cap_in=1, cap_out=1, start=START + 3 * H, end=START + 9 * H),
-         A.Transport('gone', [n1, n2], min_cap=0, max_cap=2, start=START + 10 * H, end=START + 12 * H),
-         A.SimpleContract('m1', n1, price='p2', min_cap=-5, max_cap=5),
-         A.SimpleContract('m2', n2, price='p3', min_cap=-5, max_cap=5)]
+    a = [A.SimpleContract(NM('early'), n1, price='p1', min_cap=-2, max_cap=2, start=START - 3 * H, end=START + 2 * H),
+         A.Storage(NM('late'), n1, size=2, cap_in=1, cap_out=1, start=START + 3 * H, end=START + 9 * H),
+         A.Transport(NM('gone'), [n1, n2], min_cap=0, max_cap=2, start=START + 10 * H, end=START + 12 * H),
+         A.SimpleContract(NM('m1'), n1, price='p2', min_cap=-5, max_cap=5),
+         A.SimpleContract(NM('m2'), n2, price='p3', min_cap=-5, max_cap=5)]
     return 'windows', eao.portfolio.Portfolio(a), pr, tg
 
 
